@@ -206,6 +206,8 @@ class AbstractBlob:
     def save_verified_blob(self, verified_bytes: bytes):
         if self.verified.is_set():
             return
+        if self.length is None:
+            self.length = len(verified_bytes)
 
         def update_events(_):
             self.verified.set()
